@@ -31,6 +31,7 @@ class Ctx:
         self.scalars = list(SCALAR_VARS)      # names usable as scalar values
         self.seqs = list(SEQ_VARS)
         self.switch_depth = 0
+        self.case_bias = False
         self.n_elems = 0
         self.eid = 0
 
@@ -374,6 +375,8 @@ def element(ctx, depth):
               st.integers(0, 5), min_size=1, max_size=4)),
           "close_space": d(st.sampled_from(["", "", " "]))}
     stmts = el["stmts"]
+    # set by a switch element that lays its children out as a ladder of cases
+    bias, ctx.case_bias = ctx.case_bias, False
     want = ctx.opts.get("stmt_p", 3)
     kinds = ["define", "condition", "repeat", "switch", "case", "content",
              "replace", "omit-tag", "attributes"]
@@ -391,14 +394,14 @@ def element(ctx, depth):
     if "case" in chosen and ctx.switch_depth == 0:
         chosen.remove("case")
     elif ctx.switch_depth > 0 and "case" not in chosen and \
-            d(st.booleans()):
+            (bias or d(st.booleans())):
         chosen.insert(chosen.index("content") if "content" in chosen
                       else len(chosen), "case")
     if ctx.opts.get("no_same_elem_guard_conflicts", True):
         # combinations whose result depends on the order *inside* the guard
         # group are not fixed by the property (docs and code differ)
         if "repeat" in chosen and "case" in chosen:
-            chosen.remove("case")
+            chosen.remove("repeat" if bias else "case")
         if "repeat" in chosen and "switch" in chosen:
             chosen.remove("switch")
     saved_scalars = list(ctx.scalars)
@@ -424,7 +427,7 @@ def element(ctx, depth):
                     ctx.scalars.append(name)
         stmts["define"] = defs
     if "case" in chosen:
-        c = d(st.integers(0, 4))
+        c = d(st.integers(0, 2 if bias else 4))
         if c == 0:
             e = ["default"]
         else:
@@ -554,7 +557,14 @@ def element(ctx, depth):
     budget = ctx.opts.get("max_elems", 14)
     if depth > 0 and not (d(st.integers(0, 6)) == 0):
         kids = []
-        for _ in range(d(st.integers(0, 3))):
+        # a switch often holds nothing but cases, the catch-all not always last
+        ladder = has_switch and d(st.booleans())
+        for _ in range(d(st.integers(2, 4) if ladder else st.integers(0, 3))):
+            if ladder and ctx.n_elems < budget:
+                ctx.case_bias = True
+                kids.append(["elem", element(ctx, depth - 1)])
+                ctx.case_bias = False
+                continue
             if d(st.integers(0, 2)) == 0 or ctx.n_elems >= budget:
                 t = text_node(ctx)
                 if kids and kids[-1][0] == "text":
